@@ -100,7 +100,7 @@ class C10(VectorEngine):
         "thorough": [("MC_Numfmt", "MC_Numfmt_t.cfg", {"workers": 8, "timeout": 3000}), ("MC_Numfmt", "MC_Numfmt_cap.cfg", {"workers": 8}),
                      ("MC_Numfmt", "MC_Numfmt_deep.cfg", {"workers": 8, "timeout": 3000})],
     }
-    random_n = {"quick": 4000, "thorough": 120000}
+    random_n = {"quick": 3000, "thorough": 120000}
 
     # ---- rendering ----------------------------------------------------------
     def render(self, inp):
